@@ -617,6 +617,10 @@ class NUMERIC(FieldType):
         elif not self.is_valid(default):
             raise Exception("The default %r is not a valid number for this "
                             "field" % default)
+        else:
+            # The column holds the sortable form of every number
+            default = to_sortable(numtype, bits, signed,
+                                  self.prepare_number(default))
 
         self.default = default
         self.set_sortable(sortable)
